@@ -47,6 +47,12 @@ pub fn judge(ctx: &mut Ctx, r: &Range, source: &str, from_parse: bool) {
         }
     };
     ctx.class(&format!("{}:{}", if from_parse { "parsed" } else { "setop" }, cls));
+    if printed.len() < 120 {
+        if let Ok(Some(m)) = guarded(|| crate::observe::fmt_spec_mismatch(r)) {
+            ctx.violation(&format!("display-under-format-spec/{}", cls), w, m);
+            return;
+        }
+    }
     if !from_parse || printed != source {
         ctx.nontrivial(source);
     }
